@@ -286,7 +286,7 @@ Proof.
   { intros w. unfold inl. rewrite existsb_exists. split.
     - intros [x [Hx E]]. apply Z.eqb_eq in E. subst. exact Hx.
     - intros H. exists w. split; [exact H|apply Z.eqb_refl]. }
-  pose proof (filter_length_split inl (zrange 0 nwires)) as S.
+  pose proof (filter_length_split inl (zrange 0 nwires)) as S. unfold inl in S at 2. cbv beta in S.
   assert (Lr : length (zrange 0 nwires) = Z.to_nat nwires).
   { unfold zrange. rewrite map_length, seq_length. f_equal. lia. }
   set (F := filter inl (zrange 0 nwires)) in *.
@@ -299,13 +299,13 @@ Proof.
     assert (I2 : incl iwire F).
     { apply NoDup_length_incl; [exact NF|lia|exact IF]. }
     split.
-    + apply (NoDup_incl_NoDup F iwire NF); [lia|exact IF].
+    + apply (@NoDup_incl_NoDup Z F iwire NF); [lia|exact IF].
     + intros w Hw. apply I2 in Hw. apply filter_In in Hw. apply in_zrange. tauto.
   - intros [ND Hb].
     assert (I2 : incl iwire F).
     { intros w Hw. apply filter_In. split; [apply in_zrange, Hb, Hw|apply Hin, Hw]. }
     assert (Le : length iwire = length F).
-    { apply Nat.le_antisymm; apply NoDup_incl_length; assumption. }
+    { apply Nat.le_antisymm; [apply (@NoDup_incl_length Z iwire F ND I2)|apply (@NoDup_incl_length Z F iwire NF IF)]. }
     lia.
 Qed.
 
